@@ -14,6 +14,8 @@ for m in mods:
     fams = [getattr(mod, n) for n in dir(mod) if n in ("FAMILY", "SEM", "LIM", "EVENT", "COND")]
     for fam in fams:
         for cfg in fam.configs:
+            if cfg.liveness:
+                continue
             d = core.OUT / "sweep"
             d.mkdir(parents=True, exist_ok=True)
             p = d / f"{m}-{cfg.name}.cfg"
